@@ -506,3 +506,68 @@ def run_c18(rep, tier):
     rep.assumptions += ["H-iso: analysis does not read the output file (it is excluded by its !wireinject constraint) — "
                         "this is exactly what the history correspondence validates"]
     return dis, fails, known
+
+
+# ---- -tags: injector files with further build constraints, repeated runs under one tag list -------------------------
+
+def run_tags(rep, tier, which="C17"):
+    """`wire gen -tags foo`: a package whose injector file is constrained by `wireinject && foo`, and an ordinary package, each
+    generated, diffed, checked and generated again under the same tag list.  Declarative expectations only."""
+    ws = Workspace()
+    fails = []
+
+    def bad(msg, **kw):
+        fails.append(dict({"stream": "cmd-tags", "why": [msg]}, **kw))
+    try:
+        base = "package %s\n\ntype T struct{ N int }\n\ntype U struct{ T T }\n\nfunc NewT() T { return T{N: 1} }\n\nfunc NewU(t T) U { return U{T: t} }\n"
+        inj = "package %s\n\nimport \"github.com/google/wire\"\n\nfunc Init() U {\n\twire.Build(NewT, NewU)\n\treturn U{}\n}\n"
+        for pkg, cons in (("tg", "//go:build wireinject && foo\n// +build wireinject,foo\n\n"), ("tp", "//go:build wireinject\n// +build wireinject\n\n")):
+            os.makedirs(ws.root + "/" + pkg)
+            open("%s/%s/a.go" % (ws.root, pkg), "w").write(base % pkg)
+            open("%s/%s/wire.go" % (ws.root, pkg), "w").write(cons + inj % pkg)
+        for pkg in ("tg", "tp"):
+            rep.nontrivial.add("tags/" + pkg)
+            hist = []
+
+            def step(argv):
+                rc, out, err = ws.wire(argv)
+                hist.append("wire %s -> exit %d %s" % (" ".join(argv), rc, err.strip()[-160:]))
+                rep.evaluations += 1
+                if panicked(err):
+                    bad("wire panicked", history=list(hist))
+                return rc
+            rc = step(["gen", "-tags", "foo", "./" + pkg])
+            first = ws.read(pkg)
+            if rc != 0 or first is None or "func Init()" not in first:
+                bad("`wire gen -tags foo` on a package whose injector file is selected under these tags exits %d and %s" % (
+                    rc, "writes no wire_gen.go" if first is None else "the file lacks the injector"), history=list(hist), package=pkg)
+                continue
+            if which == "C17":
+                rc = step(["diff", "-tags", "foo", "./" + pkg])
+                if rc != 0:
+                    bad("`wire diff -tags foo` right after `wire gen -tags foo` exits %d" % rc, history=list(hist), package=pkg)
+                rc = step(["check", "-tags", "foo", "./" + pkg])
+                if rc != 0:
+                    bad("`wire check -tags foo` exits %d on an accepted package" % rc, history=list(hist), package=pkg)
+                rcb, outb, errb = run(["go", "build", "-tags", "foo", "./" + pkg], cwd=ws.root, env=dict(GOENV), timeout=300)
+                if rcb != 0:
+                    bad("the package does not compile with the generated file: " + (outb + errb)[-300:], history=list(hist), package=pkg)
+            else:
+                # C18: the same command again sees its own output and must leave exactly the same file; diff is silent; a hand-damaged
+                # file that keeps the constraint line is replaced by the same bytes
+                rc = step(["gen", "-tags", "foo", "./" + pkg])
+                if rc != 0 or ws.read(pkg) != first:
+                    bad("running `wire gen -tags foo` a second time %s" % ("fails (exit %d)" % rc if rc != 0 else "changes the file"), history=list(hist), package=pkg)
+                    continue
+                rc = step(["diff", "-tags", "foo", "./" + pkg])
+                if rc != 0:
+                    bad("`wire diff -tags foo` after two generations exits %d" % rc, history=list(hist), package=pkg)
+                head = first.split("package ")[0]
+                ws.write(pkg, head + "package %s\n\nfunc staleHelper() int { return 1 }\n" % pkg)
+                rc = step(["gen", "-tags", "foo", "./" + pkg])
+                if rc != 0 or ws.read(pkg) != first:
+                    bad("after the output was replaced by a stale file with the generated header, `wire gen -tags foo` %s" % (
+                        "fails (exit %d)" % rc if rc != 0 else "does not restore what a fresh checkout gets"), history=list(hist), package=pkg)
+    finally:
+        ws.close()
+    return [], fails
